@@ -15,7 +15,9 @@ RULE = ("(a) data spec (1-3 dims; float/int/categorical; identity/affine coordin
         "from a second dataset, pixel, world) x view (None, Ellipsis, bare slice, tuples of positive-step slices possibly shorter than "
         "ndim, mixed integers and slices, tuples of integer index arrays, boolean masks); (b) same x selection (every leaf kind, "
         "depth<=2 composites); (c) IndexedData over 2-4-d parents with full-length tuple views, statistics, histograms, before and after "
-        "an index change. Oracle: index the full result. Non-trivial = view selects a proper non-empty subarray (masks: full mask not "
+        "an index change; (d) a selection defined on dataset A (slice, mask, pixel inequality / range / rectangle) evaluated with a view on "
+        "a dataset B whose pixel axes are linked one-to-one to A's in a generated order, B possibly larger than A. Oracle: index the "
+        "full result (and for (d) the full mask equals A's mask on the permuted grid). Non-trivial = view selects a proper non-empty subarray (masks: full mask not "
         "constant); distinct by spec hash.")
 ASSUMPTIONS = [
     "all-integer views (0-d results) are outside 'mixed integers and slices'; they are generated as a counted, unasserted class",
@@ -380,6 +382,132 @@ def indexed_cases(draw):
             "stats": draw(st.lists(st.sampled_from(["minimum", "maximum", "mean", "sum", "median"]), min_size=1, max_size=2, unique=True))}
 
 
+# --------------------------------------------------------------------------- selections seen from a pixel-aligned dataset
+
+def fn_aligned(spec, rec):
+    """A selection defined on dataset A, evaluated (with a view) on dataset B whose pixel axes are linked one-to-one to A's,
+    possibly in another order.  Two oracles: the view of the full mask (this property), and the full mask itself equals A's mask
+    with the axes permuted (what 'selects exactly the elements whose derived values satisfy it' means for linked pixel axes)."""
+    from glue.core import Data, DataCollection
+    from glue.core.link_helpers import LinkSame
+    from glue.core.subset import SliceSubsetState, MaskSubsetState, RoiSubsetState, RangeSubsetState
+    from glue.core.roi import RectangularROI
+    shape_a = tuple(spec["shape"])
+    nd = len(shape_a)
+    perm = [p % nd for p in spec["perm"]][:nd]
+    if sorted(perm) != list(range(nd)):
+        perm = list(range(nd))
+    leaf = spec["leaf"]
+    k = leaf["t"]
+    pad = [0] * nd if k == "slice" else (list(spec.get("pad") or []) + [0] * nd)[:nd]      # B may extend beyond A's grid
+    shape_b = tuple(shape_a[perm[i]] + pad[i] for i in range(nd))
+    a = Data(label="A", u=np.arange(int(np.prod(shape_a)), dtype=float).reshape(shape_a))
+    b = Data(label="B", v=np.zeros(shape_b))
+    dc = DataCollection([a, b])
+    for i in range(nd):
+        dc.add_link(LinkSame(a.pixel_component_ids[perm[i]], b.pixel_component_ids[i]))
+    grid = np.meshgrid(*[np.arange(n) for n in shape_a], indexing="ij")
+    grid_b = np.meshgrid(*[np.arange(n) for n in shape_b], indexing="ij")
+    pos_a = [None] * nd                 # position along each of A's axes of every element of B
+    for i in range(nd):
+        pos_a[perm[i]] = grid_b[i]
+    inside = np.ones(shape_b, dtype=bool)
+    for ax in range(nd):
+        inside &= pos_a[ax] < shape_a[ax]
+    if k == "slice":
+        sl = [slice(*x) for x in leaf["slices"][:nd]] + [slice(None)] * (nd - len(leaf["slices"][:nd]))
+        mask_a = np.zeros(shape_a, dtype=bool)
+        mask_a[tuple(sl)] = True
+        expected_full = np.transpose(mask_a, perm)
+
+        def make():
+            return SliceSubsetState(a, sl)
+    elif k == "mask":
+        bits = (leaf["bits"] * (int(np.prod(shape_a)) // max(1, len(leaf["bits"])) + 1))[:int(np.prod(shape_a))]
+        mask_a = np.array(bits, dtype=bool).reshape(shape_a)
+        expected_full = np.zeros(shape_b, dtype=bool)      # elements of B outside A's grid are not selected
+        expected_full[inside] = mask_a[tuple(p[inside] for p in pos_a)]
+
+        def make():
+            return MaskSubsetState(mask_a.copy(), a.pixel_component_ids)
+    elif k == "ineq":
+        ax = leaf["axis"] % nd
+        mask_a = grid[ax] > leaf["val"]
+        expected_full = pos_a[ax] > leaf["val"]
+
+        def make():
+            return a.pixel_component_ids[ax] > leaf["val"]
+    elif k == "range":
+        ax = leaf["axis"] % nd
+        lo, hi = sorted([leaf["lo"], leaf["hi"]])
+        mask_a = (grid[ax] >= lo) & (grid[ax] <= hi)
+        expected_full = (pos_a[ax] >= lo) & (pos_a[ax] <= hi)
+
+        def make():
+            return RangeSubsetState(lo, hi, att=a.pixel_component_ids[ax])
+    else:
+        ax, ay = leaf["ax"] % nd, leaf["ay"] % nd
+        x0, x1 = sorted([leaf["x0"], leaf["x1"]])
+        y0, y1 = sorted([leaf["y0"], leaf["y1"]])
+        mask_a = (grid[ax] > x0 - 0.5) & (grid[ax] < x1 + 0.5) & (grid[ay] > y0 - 0.5) & (grid[ay] < y1 + 0.5)
+        expected_full = (pos_a[ax] > x0 - 0.5) & (pos_a[ax] < x1 + 0.5) & (pos_a[ay] > y0 - 0.5) & (pos_a[ay] < y1 + 0.5)
+
+        def make():
+            return RoiSubsetState(xatt=a.pixel_component_ids[ax], yatt=a.pixel_component_ids[ay],
+                                  roi=RectangularROI(xmin=x0 - 0.5, xmax=x1 + 0.5, ymin=y0 - 0.5, ymax=y1 + 0.5))
+    vs = spec["view"]
+    view = gen.build_view(vs, shape_b)
+
+    def guard(f, what):
+        try:
+            return np.asarray(f())
+        except Exception as e:  # noqa
+            if blame(e)[0] != "glue":
+                raise
+            raise Mismatch("aligned-%s-raises/%s/%s" % (what, k, type(e).__name__), repr(e)[:300])
+    state = make()
+    if spec.get("order"):
+        full = guard(lambda: b.get_mask(state), "full")
+        got = guard(lambda: b.get_mask(state, view), "view")
+    else:
+        got = guard(lambda: b.get_mask(state, view), "view")
+        full = guard(lambda: b.get_mask(make()), "full")
+    if full.shape != shape_b or not np.array_equal(full.astype(bool), expected_full):
+        raise Mismatch("aligned-full-mask-wrong/%s/%s" % (k, "permuted" if perm != list(range(nd)) else "same-order"),
+                       {"got": full.astype(int).tolist(), "expected": expected_full.astype(int).tolist(), "perm": perm})
+    expected = expected_full if view is None else expected_full[view]
+    if got.shape != expected.shape:
+        raise Mismatch("aligned-mask-view/%s/%s/shape" % (k, vs[0]), {"got": list(got.shape), "expected": list(expected.shape)})
+    if not np.array_equal(got.astype(bool), expected):
+        raise Mismatch("aligned-mask-view/%s/%s/values" % (k, vs[0]), {"got": got.astype(int).tolist(), "expected": expected.astype(int).tolist(), "perm": perm})
+    # and the same selection on its own dataset
+    own = guard(lambda: a.get_mask(make()), "own")
+    if not np.array_equal(own.astype(bool), mask_a):
+        raise Mismatch("aligned-own-mask-wrong/%s" % k, None)
+    rec.nt(gen.view_is_proper(vs, shape_b) and mask_a.any() and not mask_a.all())
+    rec.label("aligned:" + k, "view:" + vs[0], "ndim:%d" % nd, "permuted" if perm != list(range(nd)) else "same-order",
+              "larger-than-A" if any(pad) else "same-size")
+
+
+@st.composite
+def aligned_cases(draw):
+    shape = draw(st.lists(st.integers(1, 4), min_size=1, max_size=3))
+    nd = len(shape)
+    perm = draw(st.permutations(list(range(nd))))
+    sl = st.tuples(st.one_of(st.none(), st.integers(0, 3)), st.one_of(st.none(), st.integers(0, 4)), st.one_of(st.none(), st.integers(1, 3))).map(list)
+    leaf = draw(st.one_of(
+        st.fixed_dictionaries({"t": st.just("slice"), "slices": st.lists(sl, min_size=nd, max_size=nd)}),
+        st.fixed_dictionaries({"t": st.just("slice"), "slices": st.lists(sl, min_size=nd, max_size=nd)}),
+        st.fixed_dictionaries({"t": st.just("mask"), "bits": st.lists(st.booleans(), min_size=1, max_size=12)}),
+        st.fixed_dictionaries({"t": st.just("ineq"), "axis": st.integers(0, 2), "val": st.sampled_from([-1, 0, 0.5, 1, 2])}),
+        st.fixed_dictionaries({"t": st.just("range"), "axis": st.integers(0, 2), "lo": st.integers(-1, 3), "hi": st.integers(0, 4)}),
+        st.fixed_dictionaries({"t": st.just("roi"), "ax": st.integers(0, 2), "ay": st.integers(0, 2), "x0": st.integers(0, 3), "x1": st.integers(0, 3),
+                               "y0": st.integers(0, 3), "y1": st.integers(0, 3)})))
+    pad = [0] * nd if leaf["t"] == "slice" else draw(st.lists(st.sampled_from([0, 0, 1, 2]), min_size=nd, max_size=nd))
+    shape_b = [shape[p] + pad[i] for i, p in enumerate(perm)]
+    return {"shape": shape, "perm": list(perm), "leaf": leaf, "pad": pad, "view": draw(gen.view_spec(shape_b)), "order": draw(st.booleans())}
+
+
 def checks(tier):
     n = {"quick": (3000, 3000, 400, 500, 1200), "thorough": (240000, 240000, 5000, 30000, 80000)}.get(tier, (10, 10, 10, 10, 10))
     return [
@@ -390,4 +518,5 @@ def checks(tier):
         Check("pixel_roi_views", fn_mask, strategy=pixel_roi_cases(), examples=n[4]),
         Check("scalar_views_unasserted", fn_scalar_views, strategy=scalar_cases(), examples=n[2]),
         Check("indexed_data", fn_indexed, strategy=indexed_cases(), examples=n[3]),
+        Check("aligned_dataset_views", fn_aligned, strategy=aligned_cases(), examples=n[4]),
     ]
